@@ -11,26 +11,6 @@ use serde_json::json;
 
 const PATHS: &[&str] = &["flat", "flat_wo", "flat_recompiled", "wo_compiled_twice", "deep", "wo2deep"];
 
-/// reference tree of a parenthesis-free chain: the root is the rightmost operator of lowest priority
-pub fn tree_from_chain(operands: &[Tree], ops: &[usize], table: &Table) -> Tree {
-    if ops.is_empty() {
-        return operands[0].clone();
-    }
-    let mut root = 0;
-    for (i, o) in ops.iter().enumerate() {
-        let p = table[*o].bin.as_ref().unwrap().prio;
-        let pr = table[ops[root]].bin.as_ref().unwrap().prio;
-        if p <= pr {
-            root = i;
-        }
-    }
-    Tree::bin(
-        ops[root],
-        tree_from_chain(&operands[..=root], &ops[..root], table),
-        tree_from_chain(&operands[root + 1..], &ops[root + 1..], table),
-    )
-}
-
 /// counts operator applications that happen while parsing (= folding events)
 fn fold_events(text: &str, st: &mut Stats) {
     let b = applied();
@@ -174,7 +154,13 @@ pub fn run(ctx: &Ctx) -> i32 {
                 7..=8 => rng.range(11, 40),
                 _ => rng.range(41, 100),
             };
-            let tree = gen_tree(rng, &table, size, &gcfg);
+            let tree = if rng.chance(1, 10) {
+                st.bump("trees_long_single_level_chain");
+                let n = rng.range(15, 90);
+                gen_chain_tree(rng, &table, n, &gcfg)
+            } else {
+                gen_tree(rng, &table, size, &gcfg)
+            };
             let rcfg = if rng.chance(1, 2) { RenderCfg::plain() } else { RenderCfg::random(rng) };
             let text = render(&tree, &table, rng, &rcfg);
             st.bump("cases");
